@@ -23,7 +23,10 @@ theorem SameChain.trans {a b c : State} (h1 : SameChain a b) (h2 : SameChain b c
 theorem sameChain_of_aux {s s' : State} (h : Aux s s') : SameChain s s' :=
   ⟨h.2.2.2.2.1, h.2.2.2.2.2.2.2.1, h.2.2.2.2.2.2.2.2.1, h.2.2.2.2.2.2.2.2.2.2.2.2.1,
    h.2.2.2.2.2.2.2.2.2.2.2.2.2.1, h.2.2.2.2.2.2.2.2.2.1, h.2.2.2.2.2.2.2.2.2.2.1,
-   h.2.2.2.2.2.2.2.2.2.2.2.1, h.2.2.2.2.2.2.2.2.2.2.2.2.2.2⟩
+   h.2.2.2.2.2.2.2.2.2.2.2.1, h.2.2.2.2.2.2.2.2.2.2.2.2.2.2.1⟩
+
+theorem sameChain_addIndex (s : State) (b : Blk) (src : Src) : SameChain s (addIndex s b src) :=
+  ⟨rfl, rfl, rfl, rfl, rfl, rfl, rfl, rfl, rfl⟩
 
 theorem sameChain_storeBlock {s s1 : State} {b : Blk} (h : storeBlock s b = some s1) : SameChain s s1 := by
   unfold storeBlock at h
@@ -100,7 +103,7 @@ theorem processBlock_reject_tip {P : Params} (s : State) (b : Blk) (src : Src)
                   · exact ⟨SameChain.refl _, _, rfl⟩
                   · rename_i s1 hs1
                     have h1 := sameChain_storeBlock hs1
-                    have h2 : SameChain s1 (addIndex s1 b src) := sameChain_of_aux (aux_addIndex s1 b src)
+                    have h2 : SameChain s1 (addIndex s1 b src) := sameChain_addIndex s1 b src
                     have hb' : (addIndex s1 b src).best = tip :: rest := by
                       rw [h2.1, h1.1, hu.2.2.2.2.1, hbest]
                     have h3 := connectBestChain_reject (P := P) (addIndex s1 b src) b tip rest hb' hpar (hinv _)
@@ -112,5 +115,166 @@ theorem processBlock_reject_tip {P : Params} (s : State) (b : Blk) (src : Src)
               simp only at he
               subst he
               exact ⟨(sameChain_of_aux hu).trans key.1, Or.inr ⟨e, rfl⟩⟩
+
+end C27
+
+namespace C27
+open C25 (Map upd)
+
+/-! ### placements that execute nothing: orphan pool, side branch -/
+
+/-- a block whose parent the node does not know goes to the orphan pool (or is refused as known):
+nothing of the chain part moves — whatever the block is. -/
+theorem processBlock_orphan_placement {P : Params} (s : State) (b : Blk) (src : Src)
+    (hpar : blockExists (unorphan s b) b.parent = false) :
+    SameChain s (processBlock P s b src).1 ∧
+    ((processBlock P s b src).2 = .orphan ∨ ∃ e, (processBlock P s b src).2 = .err e) := by
+  unfold processBlock
+  split
+  · exact ⟨SameChain.refl s, Or.inr ⟨_, rfl⟩⟩
+  · split
+    · exact ⟨SameChain.refl s, Or.inr ⟨_, rfl⟩⟩
+    · split
+      · exact ⟨SameChain.refl s, Or.inr ⟨_, rfl⟩⟩
+      · rw [hpar]
+        simp only [Bool.not_false, if_true]
+        exact ⟨(sameChain_of_aux (aux_unorphan' s b)).trans (sameChain_of_aux (aux_addOrphan _ b src)), by simp⟩
+
+/-- `connectBestChain` of a block that does not extend the tip and does not outweigh it (or lies
+below the finalisation margin): the state is returned untouched, the answer is not "main". -/
+theorem connectBestChain_light {P : Params} (s : State) (b : Blk) (tip : Blk) (rest : List Blk)
+    (hbest : s.best = tip :: rest) (hpar : b.parent ≠ tip.id)
+    (hlight : ∀ tiptd ptd, s.tds tip.id = some tiptd → s.tds b.parent = some ptd →
+      b.diff + ptd ≤ tiptd ∨ b.height < s.fin + s.margin) :
+    (connectBestChain P s b).1 = s ∧ (connectBestChain P s b).2 ≠ .main := by
+  unfold connectBestChain
+  rw [hbest]
+  simp only [hpar, if_false]
+  split
+  · exact ⟨rfl, by simp⟩
+  · rename_i tiptd htt
+    split
+    · exact ⟨rfl, by simp⟩
+    · rename_i ptd hpt
+      rw [if_pos (hlight tiptd ptd htt hpt)]
+      split <;> exact ⟨rfl, by simp⟩
+
+theorem processOrphans_none {P : Params} (s : State) (id : Nat) (fuel : Nat)
+    (hno : ∀ o ∈ s.orphans, o.1.parent ≠ id) : processOrphans P (fuel + 2) [id] s = (s, none) := by
+  have hf : s.orphans.find? (fun o => o.1.parent == id) = none := by
+    apply List.find?_eq_none.mpr
+    intro o ho
+    simpa using hno o ho
+  simp only [processOrphans, hf]
+
+/-- **side-branch placement**: a block (valid or not — it is not executed) whose parent is known
+but is not the tip, which does not outweigh the tip (or lies below the finalisation margin), and
+for which no orphan is waiting, is pre-stored and indexed; the chain part does not move and the
+answer is never "main". -/
+theorem processBlock_side_placement {P : Params} (s : State) (b : Blk) (src : Src)
+    (tip : Blk) (rest : List Blk) (hbest : s.best = tip :: rest) (hpar : b.parent ≠ tip.id)
+    (hid1 : b.id ≠ tip.id) (hid2 : b.id ≠ b.parent)
+    (hlight : ∀ tiptd ptd, s.tds tip.id = some tiptd → s.tds b.parent = some ptd →
+      b.diff + ptd ≤ tiptd ∨ b.height < s.fin + s.margin)
+    (hno : ∀ o ∈ s.orphans, o.1.parent ≠ b.id) :
+    SameChain s (processBlock P s b src).1 ∧ (processBlock P s b src).2 ≠ .main := by
+  have hu := aux_unorphan' s b
+  have huo : ∀ o ∈ (unorphan s b).orphans, o.1.parent ≠ b.id := by
+    intro o ho
+    apply hno o
+    unfold unorphan at ho
+    split at ho
+    · exact (List.mem_filter.mp ho).1
+    · exact ho
+  have hufin : (unorphan s b).fin = s.fin := by unfold unorphan; split <;> rfl
+  unfold processBlock
+  split
+  · exact ⟨SameChain.refl s, by simp⟩
+  · split
+    · exact ⟨SameChain.refl s, by simp⟩
+    · split
+      · exact ⟨SameChain.refl s, by simp⟩
+      · split
+        · exact ⟨(sameChain_of_aux hu).trans (sameChain_of_aux (aux_addOrphan _ b src)), by simp⟩
+        · -- maybeAcceptBlock: pre-store, index, connectBestChain answers without touching anything
+          have key : SameChain (unorphan s b) (maybeAcceptBlock P (unorphan s b) b src).1 ∧
+              (maybeAcceptBlock P (unorphan s b) b src).2 ≠ .main ∧
+              (maybeAcceptBlock P (unorphan s b) b src).1.orphans = (unorphan s b).orphans := by
+            unfold maybeAcceptBlock
+            split
+            · exact ⟨SameChain.refl _, by simp, rfl⟩
+            · split
+              · exact ⟨SameChain.refl _, by simp, rfl⟩
+              · split
+                · exact ⟨SameChain.refl _, by simp, rfl⟩
+                · rename_i s1 hs1
+                  have h1 := sameChain_storeBlock hs1
+                  have hs1f : s1.fin = s.fin ∧ s1.margin = s.margin ∧ s1.orphans = (unorphan s b).orphans ∧
+                      (∀ k, k ≠ b.id → s1.tds k = s.tds k) := by
+                    unfold storeBlock at hs1
+                    split at hs1
+                    · cases hs1; exact ⟨hufin, hu.1, rfl, fun k _ => by rw [hu.2.2.2.2.2.2.1]⟩
+                    · split at hs1
+                      · cases hs1
+                      · cases hs1
+                        exact ⟨hufin, hu.1, rfl, fun k hk => by simp [upd, hk, hu.2.2.2.2.2.2.1]⟩
+                  have hb' : (addIndex s1 b src).best = tip :: rest := by
+                    show s1.best = tip :: rest
+                    rw [h1.1, hu.2.2.2.2.1, hbest]
+                  have hl' : ∀ tiptd ptd, (addIndex s1 b src).tds tip.id = some tiptd →
+                      (addIndex s1 b src).tds b.parent = some ptd →
+                      b.diff + ptd ≤ tiptd ∨ b.height < (addIndex s1 b src).fin + (addIndex s1 b src).margin := by
+                    intro tiptd ptd h2 h3
+                    have e1 : (addIndex s1 b src).tds tip.id = s.tds tip.id := hs1f.2.2.2 tip.id (Ne.symm hid1)
+                    have e2 : (addIndex s1 b src).tds b.parent = s.tds b.parent := hs1f.2.2.2 b.parent (Ne.symm hid2)
+                    have := hlight tiptd ptd (by rw [← e1]; exact h2) (by rw [← e2]; exact h3)
+                    show _ ∨ b.height < s1.fin + s1.margin
+                    rw [hs1f.1, hs1f.2.1]; exact this
+                  have hc := connectBestChain_light (P := P) (addIndex s1 b src) b tip rest hb' hpar hl'
+                  rw [hc.1]
+                  exact ⟨h1.trans (sameChain_addIndex s1 b src), hc.2, hs1f.2.2.1⟩
+          unfold acceptAndDrain
+          split
+          · exact ⟨sameChain_of_aux hu, by simp⟩
+          · cases hm : maybeAcceptBlock P (unorphan s b) b src with
+            | mk s1 r =>
+              rw [hm] at key
+              simp only at key
+              obtain ⟨hsc, hr, horph⟩ := key
+              have hpo := processOrphans_none (P := P) s1 b.id (2 * s1.orphans.length) (by
+                intro o ho; rw [horph] at ho; exact huo o ho)
+              cases r with
+              | err e => exact ⟨(sameChain_of_aux hu).trans hsc, by simp⟩
+              | main => exact absurd rfl hr
+              | side =>
+                simp only [orphanFuel, hpo]
+                exact ⟨(sameChain_of_aux hu).trans hsc, by simp⟩
+              | orphan =>
+                simp only [orphanFuel, hpo]
+                exact ⟨(sameChain_of_aux hu).trans hsc, by simp⟩
+
+end C27
+
+namespace C27
+
+/-- `maybeAcceptBlock` — the entry used for a block taken out of the orphan pool when its parent
+has arrived — of an invalid block that extends the tip: an error, chain part untouched. -/
+theorem maybeAcceptBlock_reject_tip {P : Params} (s : State) (b : Blk) (src : Src)
+    (hinv : ∀ s1, P.exec s1 b ≠ none)
+    (tip : Blk) (rest : List Blk) (hbest : s.best = tip :: rest) (hpar : b.parent = tip.id) :
+    SameChain s (maybeAcceptBlock P s b src).1 ∧ ∃ e, (maybeAcceptBlock P s b src).2 = .err e := by
+  unfold maybeAcceptBlock
+  split
+  · exact ⟨SameChain.refl _, _, rfl⟩
+  · split
+    · exact ⟨SameChain.refl _, _, rfl⟩
+    · split
+      · exact ⟨SameChain.refl _, _, rfl⟩
+      · rename_i s1 hs1
+        have h1 := sameChain_storeBlock hs1
+        have h2 : SameChain s1 (addIndex s1 b src) := sameChain_addIndex s1 b src
+        have hb' : (addIndex s1 b src).best = tip :: rest := by rw [h2.1, h1.1, hbest]
+        have h3 := connectBestChain_reject (P := P) (addIndex s1 b src) b tip rest hb' hpar (hinv _)
+        exact ⟨(h1.trans h2).trans h3.1, h3.2⟩
 
 end C27
